@@ -65,3 +65,39 @@ func VerifFilterWhere(store *Store, resource string, pit *time.Time, builder que
 	}
 	return s[i+len("WHERE "):], nil
 }
+
+// verifWalkFilters feeds collectAddressFilters the values of the address/account leaves of a builder, in Walk order
+// (what validateFilters records under the property name "address" for volumes / aggregated balances)
+type verifWalkFilters struct{ values []any }
+
+func (w verifWalkFilters) UseFilter(name string, matchers ...func(any) bool) bool {
+	for _, v := range w.values {
+		for _, m := range matchers {
+			m(v)
+		}
+	}
+	return len(w.values) > 0
+}
+
+// VerifPushDown: the push-down DECISION of the real code for a filter: canPushAddressFilterToLateral, and the
+// addresses / needSegments the real collectAddressFilters derives from the address leaves.
+func VerifPushDown(builder query.Builder) (canPush bool, needSegments bool, addresses []string, err error) {
+	defer func() {
+		if r := recover(); r != nil {
+			err = fmt.Errorf("panic: %v", r)
+		}
+	}()
+	var w verifWalkFilters
+	if builder != nil {
+		if err := builder.Walk(func(operator string, key string, value *any) error {
+			if key == "address" || key == "account" {
+				w.values = append(w.values, *value)
+			}
+			return nil
+		}); err != nil {
+			return false, false, nil, err
+		}
+	}
+	addresses, needSegments = collectAddressFilters(w)
+	return canPushAddressFilterToLateral(builder), needSegments, addresses, nil
+}
